@@ -169,6 +169,11 @@ def run(ck):
     mb = mod.func('make_bonds')
     ck.analysed(mod, mb)
     cr = [c for c in walk_local(mb) if isinstance(c, ast.Call) and call_name(c) == 'collect_residues']
+    # the residues are the groups of collect_residues (all atoms with the same key, wherever they stand in the file); any other grouping -- `itertools.groupby`
+    # only joins atoms that follow each other -- is a finding, reported before the rules below lose their anchor
+    ck.ob('PROV-partition', mod.loc(mb), len(cr) == 1, 'make_bonds groups the atoms into residues with collect_residues ({} call(s){})'.format(
+        len(cr), '; itertools.groupby found instead' if any(isinstance(c, ast.Call) and (call_name(c) or '').endswith('groupby') for c in walk_local(mb)) else ''),
+        key='PROV-partition|make_bonds|collect_residues')
     ck.need(len(cr) == 1, 'make_bonds: collect_residues call not found')
     keys = try_fold(cr[0].args[1]) if len(cr[0].args) > 1 else None
     ck.ob('KEY-residue', mod.loc(cr[0]), isinstance(keys, (list, tuple)) and set(keys) >= {'mol_idx', 'chain', 'resid', 'resname', 'insertion_code'},
